@@ -548,22 +548,10 @@ class CParser(RecursiveDescentParser):
         """Handle the special case where an array is initialized with
         a string.
         """
-        # isinstance(initializer, expressions.StringLiteral):
         string = self.consume("STRING")
-        # Turn into sequence of characters:
-        il = []
-        location = string.loc
-        for c in string.val:
-            il.append(
-                expressions.CharLiteral(
-                    ord(c), self.semantics.char_type, location
-                )
-            )
-        il.append(
-            expressions.CharLiteral(0, self.semantics.char_type, location)
+        return self.semantics.on_string_initializer(
+            typ, string.val, string.loc
         )
-        initializer = expressions.ArrayInitializer(typ, il, location)
-        return initializer
 
     def parse_initializer_list(self, typ):
         """Parse braced initializer list.
